@@ -21,8 +21,10 @@ from . import common, model, drive, geom, rdk, iso
 from .common import Reporter, run_tlc
 from .model import IdMap, project, build, diff
 
-FAMS = {"quick": {"alltet": 1, "alllp": 1, "allsp": 1, "alltbp": 3, "alloct": 12, "star5": 40, "two": 1, "star4lp": 6},
-        "thorough": {"alltet": 1, "alllp": 1, "allsp": 1, "alltbp": 1, "alloct": 1, "star5": 1, "two": 1, "star4lp": 1, "tbp": 1, "oct": 1}}
+FAMS = {"quick": {"alltet": 1, "alllp": 1, "allsp": 1, "alltbp": 3, "alloct": 12, "star5": 40, "two": 1, "star4lp": 6, "octdonor": 1},
+        "thorough": {"alltet": 1, "alllp": 1, "allsp": 1, "alltbp": 1, "alloct": 1, "star5": 1, "two": 1, "star4lp": 1, "tbp": 1, "oct": 1, "octdonor": 1}}
+# members built several times with different insertion orders (an export that re-orders bonds depends on it)
+REPEAT = {"octdonor": 6, "two": 2}
 
 
 def members(fam):
@@ -57,7 +59,7 @@ def run(tier):
         states += res.distinct
         gen += res.generated
         fam_ids = rnd.sample(range(1, 900), 9)         # atom-map numbers must be positive and < 1000
-        for gj in gs[::step]:
+        for gj in [x for x in gs[::step] for _ in range(REPEAT.get(fam, 1))]:
             n_graphs += 1
             # the members of one family share their identifiers (equal descriptors in other spellings are
             # exported one after the other in one process), every fourth member gets fresh ones
